@@ -140,6 +140,23 @@ impl TlsPeer {
         }
     }
 
+    /// encrypt application data on the established server-side stream and return the raw TLS bytes
+    /// (one record per call for inputs up to 16 KiB). Used by the schedule explorer (C20).
+    pub fn encrypt(&mut self, plaintext: &[u8]) -> Vec<u8> {
+        if let Tls::Up(s) = &mut self.tls {
+            let _ = s.write_all(plaintext);
+        }
+        std::mem::take(&mut self.pipe.borrow_mut().outgoing)
+    }
+
+    /// orderly TLS closure: the raw bytes of the close_notify alert
+    pub fn close_notify(&mut self) -> Vec<u8> {
+        if let Tls::Up(s) = &mut self.tls {
+            let _ = s.shutdown();
+        }
+        std::mem::take(&mut self.pipe.borrow_mut().outgoing)
+    }
+
     fn send_app(&mut self, msgs: Vec<Vec<u8>>) {
         if let Tls::Up(s) = &mut self.tls {
             for m in msgs {
